@@ -85,8 +85,9 @@ def evidence_info(prop, tier):
       'complete_subspaces': [
           'limit case catalogue: every (joint stack in h,s,hh,ss,sh,hhh,sss,ssh) '
           'x (range around 0 / entirely positive / entirely negative) x pipeline '
-          'occurs as a one-link model in every run of the check (quick: once, '
-          'thorough: 4 variants); axes, limited axes, states are sampled'],
+          'occurs as a jointed link plus a free companion body (listed after it, '
+          'or as its parent) in every run of the check (quick: once, thorough: 4 '
+          'variants); axes, limited axes, states are sampled'],
       'assumptions': [
           'separation guard: closed-form support height of sphere/box/capsule '
           '(plane pairs) or bounding spheres (geom pairs) from link poses of the '
@@ -216,7 +217,19 @@ def generate(prop, tier, seed, run):
             'anchor': [r.uniform(-0.1, 0.1) for _ in range(3)]
             if r.random() < 0.5 else [0.0, 0.0, 0.0],
             'joints': joints, 'geoms': [modelgen.gen_geom(r, (0, 0))]}
-    model = {'links': [link], 'acts': [], 'dt': r.choice([0.0005, 0.001, 0.002, 0.004]),
+    # companion free body (never colliding): listed after the jointed link in
+    # half of the catalogue (a free joint *behind* limited joints in link
+    # order), as the parent of the jointed link in the other half
+    free = {'parent': -1, 'root': 'free', 'pos': [2.0, r.uniform(-0.5, 0.5), 1.5],
+            'quat': modelgen.rand_quat(r), 'anchor': [0.0, 0.0, 0.0],
+            'joints': [], 'geoms': [modelgen.gen_geom(r, (0, 0))]}
+    if (idx // 8 + idx) % 2 == 0:
+      links = [link, free]
+    else:
+      link.update({'parent': 0, 'root': None,
+                   'pos': [r.uniform(-0.3, 0.3), r.uniform(-0.3, 0.3), -0.3]})
+      links = [free, link]
+    model = {'links': links, 'acts': [], 'dt': r.choice([0.0005, 0.001, 0.002, 0.004]),
              'gravity': [r.uniform(-2, 2), r.uniform(-2, 2), r.uniform(-10, 10)],
              'plane': False, 'plane_ct': [0, 0]}
     lanes = [{'seed': r.randint(0, 2**31 - 1),
@@ -224,7 +237,8 @@ def generate(prop, tier, seed, run):
               'qd': r.choice([0.0, 0.3, 1.0])} for _ in range(6)]
     return {'mode': 'limits', 'pipeline': pipe, 'model': model, 'T': 8,
             'lanes': lanes, 'x64': wc['x64'],
-            'cat': {'stack': stack, 'place': place, 'limited': which}}
+            'cat': {'stack': stack, 'place': place, 'limited': which,
+                    'free_body': 'after' if (idx // 8 + idx) % 2 == 0 else 'parent'}}
   if mode == 'limits':
     for _ in range(50):
       # no joint springs, motors only and zero control: the positional pipeline
@@ -275,7 +289,8 @@ def generate(prop, tier, seed, run):
 # ------------------------------------------------------------------ execution
 
 def canon_cat(c):
-  return None if not c else (c['stack'], c['place'], tuple(c['limited']))
+  return None if not c else (c['stack'], c['place'], tuple(c['limited']),
+                             c.get('free_body'))
 
 
 def _traj_fn(P, sys, T):
